@@ -2,7 +2,8 @@
 # usage: seedcheck.sh <seed dir> [check ids...]
 # Validates a seeded mutation in a scratch worktree (demo passes clean / fails patched / suite passes)
 # and runs the given checks against the patched tree (VERIF_REPO). Removes the worktree afterwards.
-sd=$1; shift
+sd=$(cd "$1" && pwd); shift
+VERIFDIR=$(cd $VERIFDIR && pwd)
 wt=/tmp/sw-$$-$(basename $sd)
 git -C /repo worktree add -q --detach $wt HEAD || exit 2
 cleanup(){ git -C /repo worktree remove --force $wt 2>/dev/null; }
@@ -13,7 +14,7 @@ git apply $sd/patch.diff || { echo "PATCH DOES NOT APPLY"; exit 2; }
 PYTHONPATH=$wt timeout 600 /venv/bin/python $sd/demo.py >/tmp/sc-$$.out 2>&1; c1=$?
 suite=$(PYTHONPATH=$wt /venv/bin/python -m pytest -q -p no:cacheprovider dds_tests 2>&1 | tail -1)
 echo "seed=$(basename $sd) demo_clean=$c0 demo_patched=$c1 suite='$suite'"
-cd "$(dirname "$0")/.."
+cd $VERIFDIR
 for id in "$@"; do
   out=$(VERIF_EVIDENCE_DIR=/tmp/sc-evidence VERIF_REPO=$wt timeout 3000 /venv/bin/python -W ignore -m vf.run $id --tier ${SEED_TIER:-quick} 2>&1); rc=$?
   echo "  check $id -> exit $rc : $(echo "$out" | grep -v KNOWN-FINDING | head -2 | cut -c1-260 | tr '\n' ' ')"
